@@ -49,6 +49,13 @@ def mkUni (t : List URow) (folds : List (Int × Int)) : Uni :=
       (decide (65 ≤ a ∧ a ≤ 90 ∧ b = a + 32) || decide (65 ≤ b ∧ b ≤ 90 ∧ a = b + 32)) ||
       folds.any fun (x, y) => (x == a && y == b) || (x == b && y == a) }
 
+/-- The rows that violate the law `Spec.KeyEnc.UpperHasLower`: a lower-case rune with an upper case of its own whose upper
+    case is not listed or is its own lower case.  (`Props.C09Driver.driver_uni_upper_has_lower`: empty ⇒ the law holds
+    of `mkUni t folds`.) -/
+def upperHasLowerBad (t : List URow) : List URow :=
+  t.filter fun row => row.flags / 2 % 2 == 1 && row.up != row.r &&
+    (match findRow t row.up with | some U => U.lo == U.r | none => true)
+
 def sepInts? (sep : String) (s : String) : Option (List Int) :=
   if s = "-" ∨ s = "" then some [] else (s.splitOn sep).mapM (·.toInt?)
 
@@ -232,8 +239,7 @@ def stepUni (op : List String) (impl : String) : Option String :=
   | ["hypl", ut] =>
     match parseU? ut with
     | some t =>
-      let bad := t.filter fun row => row.flags / 2 % 2 == 1 && row.up != row.r &&
-        (match findRow t row.up with | some U => U.lo == U.r | none => true)
+      let bad := upperHasLowerBad t
       let model := if bad.isEmpty then "holds" else "fails"
       let v := if bad.isEmpty ∧ impl = "holds" then "ok"
                else s!"FAIL UpperHasLower (law used by cross_protocol_char_plain_keycode) does not hold of Go's unicode tables: {bad.map (·.r)}"
